@@ -31,15 +31,15 @@ type DiskOpts struct {
 
 // DiskOp is one completed (or interrupted) storage operation.
 type DiskOp struct {
-	Kind   byte // 'S' save, 'D' delete, 'L' load, 'I' list
-	Key    uint
-	Val    []byte // saved value, loaded value
-	Err    bool
-	Effect bool // the medium changed (or would have: delete of a missing key counts)
-	Step   int  // completion step
-	Start  int  // invocation step
-	Gen    int
-	G      string
+	Kind        byte // 'S' save, 'D' delete, 'L' load, 'I' list
+	Key         uint
+	Val         []byte // saved value, loaded value
+	Err         bool
+	Effect      bool // the medium changed (or would have: delete of a missing key counts)
+	Step        int  // completion step
+	Start       int  // invocation step
+	Gen         int
+	G           string
 	Interrupted bool // reached the medium while the process stopped; the caller never saw a result
 }
 
